@@ -88,6 +88,10 @@ func (acc *DB) TransferWithdraw(from, to string, amount int64) (*types.Receipt, 
 	if err := acc.CheckTransfer(to, from, amount); err != nil {
 		return nil, err
 	}
+	//收款账户余额不能超出上限, 否则下面的Transfer会在ExecWithdraw已经保存之后失败
+	if _, err := safeAdd(acc.LoadAccount(from).GetBalance(), amount); err != nil {
+		return nil, err
+	}
 	receipt, err := acc.ExecWithdraw(to, from, amount)
 	if err != nil {
 		return nil, err
